@@ -159,16 +159,22 @@ def interval_table(body, var, start=0, domain=U32, program=None, max_paths=4096)
 
 
 def _result_on_path(body, S, trail):
-    """Origin of _0 using the last definition of _0 along the given block trail."""
-    for blk in reversed(trail):
+    """Origin of _0 using the last definition of _0 along the given block trail; locals assigned on several branches have the value
+    of the branch this trail took (`let base = if t > 128 {255} else {..}; base.saturating_sub(t)` resolves `base` per row)."""
+    from . import paths as PA
+    ps = PA.PathSlicer(body, trail, getattr(S, "program", None))
+    for k in range(len(trail) - 1, -1, -1):
+        blk = trail[k]
         stmts = body.blocks[blk]["s"]
         for j in range(len(stmts) - 1, -1, -1):
             s = stmts[j]
             if s["k"] == "assign" and s["p"]["l"] == 0 and not s["p"]["pr"]:
-                return S.rvalue(s["r"], blk, j)
+                ps.at(k)
+                return ps.rvalue(s["r"], blk, j)
         t = body.blocks[blk]["t"]
         if t["k"] == "call" and t["dest"]["l"] == 0 and not t["dest"]["pr"] and blk != trail[-1]:
-            return S.def_term(0, blk, -1, 0)
+            ps.at(k)
+            return ps.def_term(0, blk, -1, 0)
     return ("unknown", "no def of _0 on path")
 
 
